@@ -1095,12 +1095,30 @@ func (t *tScreen) putsText(capability string, p ...interface{}) {
 			// the text goes inside a control string: a control character
 			// in it (BEL, ESC) would end that string and hand the rest
 			// of the text to the terminal as commands
-			p[i] = strings.Map(func(r rune) rune {
+			text = strings.Map(func(r rune) rune {
 				if r < ' ' || (r >= 0x7f && r < 0xa0) {
 					return -1
 				}
 				return r
 			}, text)
+			// ... and it goes to the terminal in the terminal's character
+			// set, like cell content (the UTF-8 form of U+00DC contains
+			// the byte an 8-bit terminal takes for the string terminator)
+			if t.charset != "UTF-8" && t.encoder != nil {
+				b := make([]byte, 0, len(text))
+				for _, r := range text {
+					one := make([]byte, 8)
+					t.encoder.Reset()
+					n, _, err := t.encoder.Transform(one, []byte(string(r)), true)
+					if err != nil || n == 0 || (one[0] == '\x1a' && r != '\x1a') {
+						b = append(b, '?')
+					} else {
+						b = append(b, one[:n]...)
+					}
+				}
+				text = string(b)
+			}
+			p[i] = text
 		}
 	}
 	s := t.ti.TParm(capability, p...)
